@@ -99,7 +99,7 @@ theorem found_idat (o : Oracle) (crc : Bytes → Nat) (pre suf s hdr adler : Byt
     (hp : ∀ p ∈ pieces, p ≠ [] ∧ p.length < 2 ^ 32) (hcrc : ∀ x, crc x < 2 ^ 32)
     (hcat : pieces.flatten = hdr ++ s ++ adler) (hhdr : hdr.length = 2) (had : adler.length = 4)
     (hne : pieces ≠ []) (hnp : NoPanic o)
-    (hend : suf.length < 12 ∨ (suf.drop 4).take 4 ≠ idatTag ∨ suf.length < ofBe32 (suf.take 4) + 12)
+    (hend : IdatEnd crc suf)
     (hacc : o.verified s = .ok r) (hfull : r.size = s.length)
     (hbig : (idatWrap crc pieces).length > Gen.MIN_BLOCKSIZE)
     (hq : Quiet o crc (pre ++ idatWrap crc pieces ++ suf) (pre.length + 4) pre.length) :
